@@ -18,6 +18,15 @@
 //   S <kind> <init> | <route>:<reps>:<op>,<op>,... ; ...     free-running threads on shared clones
 //     kind c: ops i<v> a<v>; kind g: ops i<bits> d<bits>; kind h: ops r<bits> m<bits>/<n>
 //     output: final=<bits> panics=<k> samples=<n> nonmonotone=<k> delivered=<n> badvalue=<k>
+//   R <a|m|g> <threads> <rounds> <start> <p>     barrier-released ROUNDS: in every round all threads are released
+//     together by a spin barrier, each makes its call(s) on its own handle clone, and after a second barrier
+//     thread 0 reads the storage (the per-round end values are printed; the caller judges them).
+//     a: absolute only; round r, thread i publishes start + r*p + ((i + r) % T) + 1      (p = stride > T)
+//     m: thread 0 makes p increments of k = 2 + r%5; thread 1 publishes absolute(s + r%2), threads i>=2
+//        absolute(s - min(s, 3i + r%4)), where s = storage at the start of the round
+//     g: even r: thread i makes p gauge increments (if (i+r) even) or decrements of (i + 1 + r%3);
+//        odd r: thread 0 sets (r%1000 + 1) * 2^20, thread i>=1 increments by 2^i
+//     output: panics=<k> samples=<n> nonmonotone=<k> ends=<v>,<v>,...
 use metrics::atomics::AtomicU64;
 use metrics::{Counter, CounterFn, Gauge, GaugeFn, GaugeValue, Histogram, HistogramFn, IntoF64};
 use std::io::{BufRead, Write};
@@ -329,6 +338,91 @@ fn run_stress(line: &str) -> String {
             cell.load(SeqCst), panics.load(SeqCst), samples, nonmono, dc.delivered.load(SeqCst), dc.bad.load(SeqCst))
 }
 
+// monotonic spin barrier (yields when the machine is oversubscribed)
+fn sync(arrived: &std::sync::atomic::AtomicUsize, phase: &mut usize, n: usize) {
+    *phase += 1;
+    let target = *phase * n;
+    arrived.fetch_add(1, SeqCst);
+    let mut spins = 0u32;
+    while arrived.load(SeqCst) < target {
+        spins += 1;
+        if spins > 20000 { std::thread::yield_now(); } else { std::hint::spin_loop(); }
+    }
+}
+
+fn run_rounds(line: &str) -> String {
+    let mut it = line.split_whitespace();
+    let kind = it.next().unwrap().to_string();
+    let nt: usize = it.next().unwrap().parse().unwrap();
+    let rounds: u64 = it.next().unwrap().parse().unwrap();
+    let start: u64 = it.next().unwrap().parse().unwrap();
+    let p: u64 = it.next().unwrap().parse().unwrap();
+    let init = if kind == "g" { (start as f64).to_bits() } else { start };
+    let cell = Arc::new(AtomicU64::new(init));
+    let cur = Arc::new(StdU64::new(init));           // storage at the start of the round (published by thread 0)
+    let arrived = Arc::new(std::sync::atomic::AtomicUsize::new(0));
+    let panics = Arc::new(StdU64::new(0));
+    let ends: Arc<Mutex<Vec<u64>>> = Arc::new(Mutex::new(Vec::with_capacity(rounds as usize)));
+    let stop = Arc::new(AtomicBool::new(false));
+    let ch = Counter::from_arc(cell.clone());
+    let gh = Gauge::from_arc(cell.clone());
+    let obs = { let cell = cell.clone(); let stop = stop.clone();
+        std::thread::spawn(move || {
+            let (mut last, mut n, mut bad) = (cell.load(SeqCst), 0u64, 0u64);
+            while !stop.load(SeqCst) {
+                let v = cell.load(SeqCst);
+                if v < last { bad += 1; }
+                last = v; n += 1;
+            }
+            (n, bad)
+        }) };
+    let mut joins = Vec::new();
+    for idx in 0..nt {
+        // handles obtained in different ways, all on the one storage
+        let c: Counter = match idx % 4 { 0 => ch.clone(), 1 => Counter::from_arc(cell.clone()), 2 => cell.clone().into(), _ => Counter::from_arc(Arc::new(cell.clone())) };
+        let g: Gauge = match idx % 4 { 0 => gh.clone(), 1 => Gauge::from_arc(cell.clone()), 2 => cell.clone().into(), _ => Gauge::from_arc(Arc::new(cell.clone())) };
+        let (cell, cur, arrived, panics, ends, kind) = (cell.clone(), cur.clone(), arrived.clone(), panics.clone(), ends.clone(), kind.clone());
+        joins.push(std::thread::spawn(move || {
+            let mut phase = 0usize;
+            let i = idx as u64;
+            for r in 1..=rounds {
+                let s = cur.load(SeqCst);
+                sync(&arrived, &mut phase, nt);
+                let res = catch_unwind(AssertUnwindSafe(|| {
+                    match kind.as_str() {
+                        "a" => c.absolute(start + r * p + ((i + r) % nt as u64) + 1),
+                        "m" => {
+                            if idx == 0 { for _ in 0..p { c.increment(2 + r % 5); } }
+                            else if idx == 1 { c.absolute(s + r % 2) }
+                            else { c.absolute(s - s.min(3 * i + r % 4)) }
+                        }
+                        _ => {
+                            if r % 2 == 0 {
+                                let v = (i + 1 + r % 3) as f64;
+                                for _ in 0..p { if (i + r) % 2 == 0 { g.increment(v) } else { g.decrement(v) } }
+                            } else if idx == 0 { g.set(((r % 1000 + 1) << 20) as f64) }
+                            else { g.increment((1u64 << i) as f64) }
+                        }
+                    }
+                }));
+                if res.is_err() { panics.fetch_add(1, SeqCst); }
+                sync(&arrived, &mut phase, nt);
+                if idx == 0 {
+                    let v = cell.load(SeqCst);
+                    ends.lock().unwrap().push(v);
+                    cur.store(v, SeqCst);
+                }
+                sync(&arrived, &mut phase, nt);
+            }
+        }));
+    }
+    for j in joins { let _ = j.join(); }
+    stop.store(true, SeqCst);
+    let (samples, nonmono) = obs.join().unwrap();
+    let ends: Vec<String> = ends.lock().unwrap().iter().map(|v| v.to_string()).collect();
+    format!("panics={} samples={} nonmonotone={} ends={}", panics.load(SeqCst), samples, nonmono, ends.join(","))
+}
+
 fn main() {
     std::panic::set_hook(Box::new(|_| {}));
     let stdin = std::io::stdin();
@@ -342,6 +436,7 @@ fn main() {
             "Q" => run_seq(rest),
             "F" => run_conv(rest),
             "S" => run_stress(rest),
+            "R" => run_rounds(rest),
             _ => panic!("bad line"),
         };
         writeln!(w, "{}", out).unwrap();
